@@ -22,15 +22,15 @@ class C02(Prop):
     diverge_is_violation = True
     level_text = ("Theorems for every byte string and every read-block size B >= 1: the block loader keeps its window inside the file (loadbuf_total); nextchar - the only primitive of the FASTA header parsers - never faults and neither skips nor repeats a byte across block boundaries (nextchar_total); "
                   "seebuf - the residue scanner behind all five read calls - never faults, never leaves the buffer and rejects bytes >= 0x80 before they index the input map (seebuf_total); the file and alphabet input maps agree on every symbol (inmaps_agree, re-proved against the regenerated tables each run). "
-                  "Tie: exact differential run of the executable FASTA model (outcome, message flag, line number, every ESL_SQ field) against the ASan/UBSan/LSan build on mutated formats/* files, generated FASTA with injected NUL/CR/>=0x80/illegal bytes and raw bytes, x B in {1,2,3,7,64,4096}; "
+                  "Tie: exact differential run of the executable model (FASTA, EMBL/UniProt, GenBank/DDBJ, daemon, hmmpgmd, suffix/first-line autodetection; Read/ReadInfo/ReadSequence/ReadWindow/ReadBlock) (outcome, message flag, line number, every ESL_SQ field) against the ASan/UBSan/LSan build on mutated formats/* files, generated FASTA with injected NUL/CR/>=0x80/illegal bytes and raw bytes, x B in {1,2,3,7,64,4096}; "
                   "for ALL nine format selections (incl. EMBL/UniProt/GenBank/DDBJ/daemon/hmmpgmd/autodetect/alignment-as-sequences) x text/amino/DNA/RNA x Read/ReadInfo/ReadSequence/ReadWindow/ReadBlock the harness-side monitor checks status in the documented set, message on eslEFORMAT, well-formed ESL_SQ, no exception, no sanitizer report, no leak.")
-    level_note = ("The totality of the whole reader (composition of the primitives through header_fasta / read_nres / Read*) is NOT a theorem: it is covered by the differential run and the sanitizer build. Outside the FASTA family there is no model at all: those selections are covered by the monitor only (search, not proof). Leaks are LSan only.")
+    level_note = ("The totality of the whole reader (composition of the primitives through header_fasta / read_nres / Read*) is NOT a theorem: it is covered by the differential run and the sanitizer build. The alignment-as-sequences selections (and files whose format autodetection falls through to the MSA readers) and GuessAlphabet have no model: monitor only (search, not proof). Leaks are LSan only.")
     assumptions = ["fread returns min(B, remaining) bytes; allocation never fails (eslEMEM paths not modelled)",
-                   "formats other than FASTA (EMBL/UniProt/GenBank/DDBJ/daemon/hmmpgmd, autodetection, alignment files), ReadBlock and GuessAlphabet are outside the model: sanitizer + record monitor only",
+                   "alignment files read as sequences, MSA-format autodetection and GuessAlphabet are outside the model: sanitizer + record monitor only",
                    "the model mirrors esl_sqio_ascii.c by hand; fidelity is checked by the differential run only"]
     technique = ("Lean 4 proofs that the executable model of the reader core never leaves its buffers (`fault` unreachable) and only returns well-formed records, "
                  "+ exact differential correspondence with the ASan/UBSan/LSan build on mutated and raw inputs, + harness-side well-formedness monitor for every format selection")
-    trusted_base = ["hand model of esl_sqio_ascii.c's FASTA reader tied by exact differential run (h_sqio.c); other format selections are covered by the sanitizer build and the record monitor only",
+    trusted_base = ["hand model of esl_sqio_ascii.c's unaligned readers (FASTA, EMBL/UniProt, GenBank/DDBJ, daemon, hmmpgmd, autodetection) tied by exact differential run (h_sqio.c); alignment-as-sequences selections are covered by the sanitizer build and the record monitor only",
                     "Lean compiler/runtime for the executable driver; gcc; ASan/UBSan/LSan"]
     rule = ("cases = byte strings (mutations of formats/*, generated FASTA with injected NUL / CR / >=0x80 / illegal symbols, raw bytes) x format selection x text/amino/DNA/RNA x "
             "read call (Read, ReadInfo, ReadSequence, ReadWindow, ReadBlock) x B in {1,2,3,7,64,4096}; non-trivial = at least one record or a format error was returned")
@@ -139,8 +139,9 @@ class C02(Prop):
                             ops.append("reuse")
                 elif call == "readblock":
                     lng = 1 if (abc in ("dna", "rna") and rng.random() < 0.7) else 0
+                    ls = rng.choice([1, 2, 8])
                     for _ in range(k):
-                        ops.append("readblock list=%d maxres=%d maxseq=%d init=%d long=%d" % (rng.choice([1, 2, 8]), rng.choice([-1, 5, 60, 1000]), rng.choice([-1, 1, 3]), rng.choice([0, 1]), lng))
+                        ops.append("readblock list=%d maxres=%d maxseq=%d init=%d long=%d ctx=%d" % (ls, rng.choice([-1, 5, 60, 1000]), rng.choice([-1, 1, 3]), rng.choice([0, 1]), lng, rng.choice([0, 0, 3, 20])))
                 elif call == "mixed":
                     ops += [rng.choice(["read", "readinfo", "readseq"]) for _ in range(k)]
                 else:
